@@ -6,11 +6,10 @@ use crate::files::*;
 use crate::util::*;
 use rand::Rng;
 use serde_json::json;
-use std::io::Cursor;
 use std::panic::{catch_unwind, AssertUnwindSafe};
 
 fn try_open(out: &mut TraceOut, bytes: &[u8], what: &str) {
-    let r = catch_unwind(AssertUnwindSafe(|| grenad::Reader::new(Cursor::new(bytes))));
+    let r = catch_unwind(AssertUnwindSafe(|| grenad::Reader::new(crate::cursor::Src::new(std::rc::Rc::new(bytes.to_vec())))));
     let size = bytes.len();
     let tail: Vec<u8> = bytes[size.saturating_sub(26)..].to_vec();
     match r {
